@@ -43,6 +43,10 @@ pub enum StreamMode {
     /// a task that polls k values, then creates a stream with add_stream, drops the parent handle and
     /// keeps polling the new stream until the end
     PollAdd(u32),
+    /// a task that polls k values and then simply stops polling (it keeps its receiver, idle, until
+    /// the scenario is over): whatever its last successful poll freed must have been announced by
+    /// that poll itself, nobody comes back to an empty stream afterwards
+    PollPause(u32),
 }
 
 #[derive(Clone, Debug)]
@@ -165,7 +169,13 @@ pub fn gen_cfg(rng: &mut Rng, small: bool) -> FutCfg {
             let mode = match if crowd == 1 { 0 } else { rng.below(8) } {
                 0 | 1 | 2 => StreamMode::Poll,
                 3 | 4 => StreamMode::Direct,
-                5 => StreamMode::PollDrop(1 + rng.below(3) as u32),
+                5 => {
+                    if rng.chance(1, 2) {
+                        StreamMode::PollDrop(1 + rng.below(3) as u32)
+                    } else {
+                        StreamMode::PollPause(1 + rng.below(3) as u32)
+                    }
+                }
                 6 => StreamMode::DirectDrop(1 + rng.below(3) as u32),
                 _ => {
                     // add_stream during traffic only on a stream whose handle is the sole one: on a
@@ -418,7 +428,7 @@ fn stream_thread(mut rx: RxH, mode: StreamMode, sh: &Shared, tid: usize, cfg: &F
     }
     let mut got = 0u32;
     let quota = match mode {
-        StreamMode::PollDrop(k) | StreamMode::DirectDrop(k) => Some(k),
+        StreamMode::PollDrop(k) | StreamMode::DirectDrop(k) | StreamMode::PollPause(k) => Some(k),
         _ => None,
     };
     let direct = matches!(mode, StreamMode::Direct | StreamMode::DirectDrop(_));
@@ -507,7 +517,7 @@ fn stream_thread(mut rx: RxH, mode: StreamMode, sh: &Shared, tid: usize, cfg: &F
             _ => break,
         }
     }
-    if matches!(mode, StreamMode::Direct) {
+    if matches!(mode, StreamMode::Direct | StreamMode::PollPause(_)) {
         // a direct drainer keeps its receiver (dropping it would notify the sinks and hide a
         // missing notification of the direct receive methods) until the scenario is over
         sh.state[tid].store(DONE, SeqCst);
@@ -956,6 +966,16 @@ pub fn run_many(seed: u64, runs: u64, budget_ms: u64, small: bool, shard: &mut S
         if budget_ms != 0 && t0.elapsed().as_millis() as u64 > budget_ms {
             break;
         }
+        if i % 16 == 3 && !cfg!(miri) {
+            let (sig, nontrivial) = same_task_scenario(&mut rng, shard);
+            shard.evaluations += 1;
+            shard.distinct.insert(sig);
+            if nontrivial {
+                shard.nontrivial.insert(sig);
+            }
+            i += 1;
+            continue;
+        }
         if i % 8 == 7 {
             let (sig, nontrivial) = direct_recv_scenario(&mut rng, shard);
             if shard.stats.contains_key("direct_recv_threads_abandoned") {
@@ -1122,4 +1142,161 @@ pub fn direct_recv_scenario(rng: &mut Rng, shard: &mut Shard) -> (u64, bool) {
     let mut sig = Hasher64::new();
     sig.add_str(&format!("direct-recv{:?}{}{}{}{:?}{}", fl, cap, uni, k, spins, waited));
     (sig.get(), waited > 0)
+}
+
+/// C13 / C14: ONE task drives both ends - it owns a sink and the last receiver handle(s). The
+/// send is refused (the task is registered on the senders' park list and will return NotReady),
+/// then, still inside the same poll, the task lets the last receivers go. The registration must be
+/// answered with a notification like anybody else's (the executor polls a task again only when it
+/// was notified), and the next poll must resolve the send to an error.
+pub fn same_task_scenario(rng: &mut Rng, shard: &mut Shard) -> (u64, bool) {
+    use futures::{Async, AsyncSink, Future, Poll, Sink};
+    use multiqueue2 as mq;
+    let bro = rng.chance(1, 2);
+    let zero_spins = bro && rng.chance(1, 2);
+    let two = rng.chance(1, 2);
+    let by_unsub = rng.chance(1, 2);
+    let uni = rng.chance(1, 3);
+    let cap = *rng.pick(&[1u64, 2, 4]);
+    let descr = format!(
+        "same-task {} cap={} zero_spins={} receiver handles={} leave={} single-consumer={}",
+        if bro { "broadcast" } else { "mpmc" },
+        cap,
+        zero_spins,
+        if two { 2 } else { 1 },
+        if by_unsub { "unsubscribe" } else { "drop" },
+        uni
+    );
+    struct Both<S, F: FnMut()> {
+        tx: S,
+        leave: Option<F>,
+        next: u64,
+        refused: u32,
+    }
+    impl<S: Sink<SinkItem = u64>, F: FnMut()> Future for Both<S, F> {
+        type Item = bool; // true = the send resolved to an error
+        type Error = ();
+        fn poll(&mut self) -> Poll<bool, ()> {
+            loop {
+                match self.tx.start_send(self.next) {
+                    Ok(AsyncSink::Ready) => {
+                        self.next += 1;
+                        if self.next > 64 {
+                            return Ok(Async::Ready(false));
+                        }
+                    }
+                    Ok(AsyncSink::NotReady(_)) => {
+                        self.refused += 1;
+                        if let Some(mut f) = self.leave.take() {
+                            f();
+                        }
+                        return Ok(Async::NotReady);
+                    }
+                    Err(_) => return Ok(Async::Ready(true)),
+                }
+            }
+        }
+    }
+    hooks::thread_begin(0, crate::conc::ROLE_MAIN, 0, Policy::None, &[]);
+    hist::set_enabled(false);
+    let (note, nh) = api::new_note();
+    // returns (first poll pending?, notified after first poll?, second poll result)
+    macro_rules! drive {
+        ($tx:expr, $leave:expr) => {{
+            let fut = Both { tx: $tx, leave: Some($leave), next: 1, refused: 0 };
+            let mut sp = futures::executor::spawn(fut);
+            let r1 = sp.poll_future_notify(&nh, 0);
+            let pending = matches!(r1, Ok(Async::NotReady));
+            let notified = note.count.load(SeqCst) > 0;
+            let r2 = if pending { Some(sp.poll_future_notify(&nh, 0)) } else { None };
+            let second = match r2 {
+                Some(Ok(Async::Ready(true))) => "Err(SendError)",
+                Some(Ok(Async::Ready(false))) => "accepted",
+                Some(Ok(Async::NotReady)) => "NotReady",
+                _ => "-",
+            };
+            (pending, notified, second)
+        }};
+    }
+    let (pending, notified, second) = if bro {
+        let (tx, rx) = if zero_spins { mq::broadcast_fut_queue_with::<u64>(cap, 0, 0) } else { mq::broadcast_fut_queue::<u64>(cap) };
+        let other = if two { Some(if rng.chance(1, 2) { rx.add_stream() } else { rx.clone() }) } else { None };
+        if uni && !two {
+            let u = rx.into_single(|v: &u64| *v).ok().expect("sole handle");
+            let mut u = Some(u);
+            drive!(tx, move || {
+                if let Some(u) = u.take() {
+                    if by_unsub {
+                        u.unsubscribe();
+                    } else {
+                        drop(u);
+                    }
+                }
+            })
+        } else {
+            let mut hs = Some((rx, other));
+            drive!(tx, move || {
+                if let Some((a, b)) = hs.take() {
+                    if by_unsub {
+                        a.unsubscribe();
+                        if let Some(b) = b {
+                            b.unsubscribe();
+                        }
+                    } else {
+                        drop(a);
+                        drop(b);
+                    }
+                }
+            })
+        }
+    } else {
+        let (tx, rx) = mq::mpmc_fut_queue::<u64>(cap);
+        let other = if two { Some(rx.clone()) } else { None };
+        let mut hs = Some((rx, other));
+        drive!(tx, move || {
+            if let Some((a, b)) = hs.take() {
+                if by_unsub {
+                    a.unsubscribe();
+                    if let Some(b) = b {
+                        b.unsubscribe();
+                    }
+                } else {
+                    drop(a);
+                    drop(b);
+                }
+            }
+        })
+    };
+    hist::set_enabled(true);
+    if pending && !notified {
+        violation(
+            "C14,C13",
+            "parked-unnotified",
+            "parked-unnotified:sink:receivers-gone:same-task".to_string(),
+            format!(
+                "a task was refused by start_send (it is registered on the senders' park list), let the last receiver handle(s) go inside the same poll and returned NotReady: it was never notified, so no executor polls it again, yet a further poll would return {} ({})",
+                second, descr
+            ),
+        );
+    } else if pending && second != "Err(SendError)" {
+        violation(
+            "C13",
+            "no-receiver-send",
+            format!("no-receiver-send:same-task:second-poll-{}", second),
+            format!("every receiver handle is gone, the task was notified and polled again, but the send returned {} instead of resolving to an error ({})", second, descr),
+        );
+    }
+    hooks::thread_end();
+    let vs = payload::take_violations();
+    if !vs.is_empty() {
+        let replay = J::obj().set("engine", J::s("fut")).set("scenario", J::s(descr.clone()));
+        shard.add_violations(vs, &replay);
+    }
+    shard.stat("same_task_scenarios", 1);
+    if pending {
+        shard.stat("same_task_scenarios_in_which_the_send_was_refused_first", 1);
+    }
+    let mut h = Hasher64::new();
+    h.add_str(&descr);
+    (h.get(), pending)
 }
